@@ -253,6 +253,22 @@ def check_case(case):
         except Exception as e:
             res.v(("C07.solve-exception", type(e).__name__), "%s order %s" % (e, o))
             continue
+        if case.get("rename_src"):
+            # after a first analysis the source(s) are replaced by identical ones with NEW names (change_comp): every aggregate follows the new names
+            from ..sysmodel import make_comp
+            ren = {}
+            for c in spec["comps"]:
+                if c["k"] == "Source":
+                    ren[c["n"]] = "Z" + c["n"]
+                    s.change_comp(c["n"], comp=make_comp(dict(c, n="Z" + c["n"])), group=c.get("g", ""), rail=c.get("r", ""))
+                    if c.get("pc") is not None and spec.get("phases"):
+                        s.set_comp_phases("Z" + c["n"], copy.deepcopy(c["pc"]))
+            spec = copy.deepcopy(spec)
+            for c in spec["comps"]:
+                c["n"] = ren.get(c["n"], c["n"])
+                c["p"] = [ren.get(q, q) for q in c["p"]]
+            df, _ = quiet_call(s.solve, energy=case["energy"])
+            res.stats["transitions"] += 3
         if case.get("rephase") and spec.get("phases"):
             # "after any edit history": the durations are changed after a first analysis; the aggregates must follow the NEW durations
             newph = {k: v * m for (k, v), m in zip(spec["phases"].items(), (3.0, 0.5, 2.0))}
@@ -327,6 +343,9 @@ def gen_cases(tier):
                     yield dict(struct={k: [v[0], list(v[1])] for k, v in st.items()}, pal=pal, volts=list(volts), phased=True, energy=True, scale=scale)
             if len(st) <= 4:
                 yield dict(struct={k: [v[0], list(v[1])] for k, v in st.items()}, pal=pal, volts=list(volts), phased=True, energy=True, blank_phase=True)
+            if len(st) <= 6 and "M" in st:
+                for ph_ in (False, True):
+                    yield dict(struct={k: [v[0], list(v[1])] for k, v in st.items()}, pal=pal, volts=list(volts), phased=ph_, energy=ph_, rename_src=True)
             if "M" in st and len(st) <= 6:  # negative rails through the mux
                 yield dict(struct={k: [v[0], list(v[1])] for k, v in st.items()}, pal=pal, volts=list(volts), phased=False, energy=False, pol=-1)
 
